@@ -9,10 +9,21 @@ import IcingaModel.C03.Spec
 
 open Icinga Icinga.C03 Icinga.Proto
 
-structure DSt where
-  cfg : Cfg := { isHost := false, interval := 0, tbegin := none, tend := none, typeFilter := 0, stateFilter := 0 }
+/-- One notification object of the case: its configuration, the model's state, the specification's bookkeeping. -/
+structure ObjSt where
+  cfg : Cfg
   st : C03.St := C03.init
   sp : C03.SpecSt := {}
+
+structure DSt where
+  objs : Array ObjSt := #[]
+  isHost : Bool := false
+  curKind : OpKind := .send      -- the operation the following "+ k" lines belong to
+  curTy : NType := .problem
+  multi : Nat := 0               -- cases with more than one notification object
+  coldStashed : Nat := 0         -- requests stashed during / behind the cold-start phase
+  coldReplayed : Nat := 0        -- timer runs that replayed (or dropped) a stash
+  requests : Nat := 0            -- requests raised by the code itself (ProcessCheckResult / FireSuppressedNotifications)
   caseNo : Nat := 0
   steps : Nat := 0
   sends : Nat := 0
@@ -59,9 +70,9 @@ def parseUser (s : String) : Option UEnv :=
 
 def parseEvent (s : String) : Option Event :=
   match s.splitOn ":" with
-  | [t, r, p, us] => do
+  | [t, r, p, f, us] => do
     pure { ty := ← (parseNat? t) >>= NType.ofBit?, reminder := ← parseBool? r, passed := ← parseBool? p,
-           users := ← parseIds us }
+           force := ← parseBool? f, users := ← parseIds us }
   | _ => none
 
 def parsePair (sep : String) (s : String) : Option (Nat × Nat) :=
@@ -74,7 +85,7 @@ def parseLns (s : String) : Option (List (Nat × Nat)) :=
 
 def parseEnv (ws : List String) (users : List UEnv) : Option (Env × Nat) :=
   match ws with
-  | [now, state, hard, lhsc, vol, reach, indt, acked, flap, ckpp, po, glob, cken, paused, ha, likely, pa, ra, force, fired] => do
+  | [now, state, hard, lhsc, vol, reach, indt, acked, flap, ckpp, po, glob, cken, paused, ha, likely, pa, ra, force, fired, au] => do
     let e : Env :=
       { now := ← parseInt? now, state := ← parseNat? state, hard := ← parseBool? hard, lhsc := ← parseInt? lhsc,
         volatile := ← parseBool? vol, reachable := ← parseBool? reach, inDowntime := ← parseBool? indt,
@@ -82,14 +93,14 @@ def parseEnv (ws : List String) (users : List UEnv) : Option (Env × Nat) :=
         periodOpen := ← parseBool? po, globalEnabled := ← parseBool? glob, ckEnabled := ← parseBool? cken,
         paused := ← parseBool? paused, haSkip := ← parseBool? ha, likelySoon := ← parseBool? likely,
         problemApplies := ← parseBool? pa, recoveryApplies := ← parseBool? ra, force := ← parseBool? force,
-        users := users }
+        authUpdated := ← parseBool? au, users := users }
     pure (e, ← parseNat? fired)
   | _ => none
 
 def showIds (l : List Nat) : String := if l.isEmpty then "_" else "+".intercalate (l.map toString)
 def showEvents (l : List Event) : String :=
   if l.isEmpty then "-" else
-  ",".intercalate (l.map fun ev => s!"{ev.ty.bit}:{showBool ev.reminder}:{showBool ev.passed}:{showIds ev.users}")
+  ",".intercalate (l.map fun ev => s!"{ev.ty.bit}:{showBool ev.reminder}:{showBool ev.passed}:{showBool ev.force}:{showIds ev.users}")
 def showPairs (sep : String) (l : List (Nat × Nat)) (empty outer : String) : String :=
   if l.isEmpty then empty else outer.intercalate (l.map fun p => s!"{p.1}{sep}{p.2}")
 
@@ -108,33 +119,37 @@ def tickN (c : Cfg) (e : Env) : Nat → C03.St → List Event → C03.St × List
 def bump (d : DSt) : DSt :=
   if d.caseNontrivial then d else { d with caseNontrivial := true, nontrivial := d.nontrivial + 1 }
 
-def handleOp (d : DSt) (n : Nat) (kind : OpKind) (ty : NType) (post : List String) : IO DSt := do
+def handleOp (d : DSt) (n : Nat) (k : Nat) (kind : OpKind) (ty : NType) (post : List String) : IO DSt := do
+  match d.objs[k]? with
+  | none => IO.println s!"BADLINE line={n}"; return d
+  | some ob =>
   match splitSemi post with
-  | [envW, [usersW], [eventsW], [cmdsW], [npuW, lnsW, nextW, noMoreW, numberW, supW]] =>
-    let parsed : Option (Env × Nat × List Event × List (Nat × Nat) × List Nat × List (Nat × Nat) × Int × Bool × Nat × Nat) := do
+  | [envW, [usersW], [eventsW], [cmdsW], [npuW, lnsW, nextW, noMoreW, numberW, supW, stashW]] =>
+    let parsed : Option (Env × Nat × List Event × List (Nat × Nat) × List Nat × List (Nat × Nat) × Int × Bool × Nat × Nat × List (Nat × Nat)) := do
       let users ← parseList usersW parseUser
       let (e, fired) ← parseEnv envW users
       let evs ← parseList eventsW parseEvent
       let cmds ← parseList cmdsW (parsePair ":")
       pure (e, fired, evs, cmds, ← parseIds npuW, ← parseLns lnsW, ← parseInt? nextW, ← parseBool? noMoreW,
-            ← parseNat? numberW, ← parseNat? supW)
+            ← parseNat? numberW, ← parseNat? supW, ← parseList stashW (parsePair ":"))
     match parsed with
     | none => IO.println s!"BADLINE line={n}"; return d
-    | some (e, fired, evs, cmds, npu, lns, next, noMore, number, sup) =>
+    | some (e, fired, evs, cmds, npu, lns, next, noMore, number, sup, stash) =>
       let (ms, mev) := match kind with
-        | .send => sendStep d.cfg d.st ty e
-        | .tick => tickN d.cfg e fired d.st []
+        | .send => sendStep ob.cfg ob.st ty e
+        | .tick => tickN ob.cfg e fired ob.st []
       let mut d := { d with steps := d.steps + 1 }
       d := match kind with | .send => { d with sends := d.sends + 1 } | .tick => { d with ticks := d.ticks + fired }
-      let implT := (evs, cmds, sortNat npu, lns, next, noMore, number, sup)
-      let modelT := (mev, cmdsOf mev, sortNat ms.npu, lnsList ms.lns, ms.next, ms.noMore, ms.number, ms.sup.toNat)
+      let implT := (evs, cmds, sortNat npu, lns, next, noMore, number, sup, stash)
+      let modelT := (mev, cmdsOf mev, sortNat ms.npu, lnsList ms.lns, ms.next, ms.noMore, ms.number, ms.sup.toNat,
+                     ms.stash.map fun p => (p.1.bit, if p.2 then 1 else 0))
       let agree := implT == modelT
       if !agree then
         let opn := match kind with | .send => "N" | .tick => "T"
-        IO.println s!"MISMATCH line={n} case={d.caseNo} op={opn} impl={showEvents evs};{showPairs ":" cmds "-" ","};{showIds (sortNat npu)};{showPairs "=" lns "_" "+"};{next};{showBool noMore};{number};{sup} model={showEvents mev};{showPairs ":" (cmdsOf mev) "-" ","};{showIds (sortNat ms.npu)};{showPairs "=" (lnsList ms.lns) "_" "+"};{ms.next};{showBool ms.noMore};{ms.number};{ms.sup.toNat}"
+        IO.println s!"MISMATCH line={n} case={d.caseNo} op={opn} obj={k} impl={showEvents evs};{showPairs ":" cmds "-" ","};{showIds (sortNat npu)};{showPairs "=" lns "_" "+"};{next};{showBool noMore};{number};{sup};{showPairs ":" stash "-" ","} model={showEvents mev};{showPairs ":" (cmdsOf mev) "-" ","};{showIds (sortNat ms.npu)};{showPairs "=" (lnsList ms.lns) "_" "+"};{ms.next};{showBool ms.noMore};{ms.number};{ms.sup.toNat};{showPairs ":" (ms.stash.map fun p => (p.1.bit, if p.2 then 1 else 0)) "-" ","}"
         d := { d with mismatches := d.mismatches + 1 }
       -- the specification on the implementation's own observations
-      let (bad, sp') := C03.specStep d.cfg d.sp ⟨kind, e, evs⟩
+      let (bad, sp') := C03.specStep ob.cfg ob.sp ⟨kind, e, evs, sup / 32 % 2 == 1⟩
       for cl in bad do
         if !d.caseFailed.contains cl.name then
           IO.println s!"SPECFAIL line={n} case={d.caseNo} clause={cl.name}"
@@ -149,41 +164,83 @@ def handleOp (d : DSt) (n : Nat) (kind : OpKind) (ty : NType) (post : List Strin
           if ev.reminder then d := { d with reminders := d.reminders + 1 }
           if ev.ty == .recovery then d := { d with recoveries := d.recoveries + 1 }
           if ev.ty == .ack then d := { d with acks := d.acks + 1 }
-          if kind == .send && e.force then d := { d with forced := d.forced + 1 }
+          if ev.force then d := { d with forced := d.forced + 1 }
         else d := { d with filteredRecoveries := d.filteredRecoveries + 1 }
-      if sup != 0 && d.st.sup.toNat == 0 then d := { d with stashed := d.stashed + 1 }
-      if sup == 0 && d.st.sup.toNat != 0 then d := { d with released := d.released + 1 }
+      if stash.length > ob.st.stash.length then d := { d with coldStashed := d.coldStashed + 1 }
+      if stash.isEmpty && !ob.st.stash.isEmpty then d := { d with coldReplayed := d.coldReplayed + 1 }
+      if sup != 0 && ob.st.sup.toNat == 0 then d := { d with stashed := d.stashed + 1 }
+      if sup == 0 && ob.st.sup.toNat != 0 then d := { d with released := d.released + 1 }
       -- resynchronise on the implementation after a mismatch so that one divergence is reported once
       let st' : C03.St := if agree then ms else
-        { npu := npu, lns := lnsOf lns, next := next, noMore := noMore, number := number, sup := Sup.ofNat sup }
-      return { d with st := st', sp := sp' }
+        { npu := npu, lns := lnsOf lns, next := next, noMore := noMore, number := number, sup := Sup.ofNat sup,
+          stash := stash.filterMap fun p => (NType.ofBit? p.1).map fun ty => (ty, p.2 != 0) }
+      return { d with objs := d.objs.set! k { ob with st := st', sp := sp' } }
   | _ => IO.println s!"BADLINE line={n}"; return d
+
+def parseCfg (isHost : Bool) (ws : List String) : Option Cfg :=
+  match ws with
+  | iv :: tb :: te :: tf :: sf :: _ => do
+    pure { isHost := isHost, interval := ← parseInt? iv, tbegin := ← parseOptInt tb, tend := ← parseOptInt te,
+           typeFilter := ← parseNat? tf, stateFilter := ← parseNat? sf }
+  | _ => none
 
 def handle (d : DSt) (n : Nat) (line : String) : IO DSt := do
   let ws := words line
   match ws with
   | [] => return d
-  | "C" :: k :: iv :: tb :: te :: tf :: sf :: _ =>
-    match (if k == "h" then some true else if k == "s" then some false else none),
-          parseInt? iv, parseOptInt tb, parseOptInt te, parseNat? tf, parseNat? sf with
-    | some isHost, some iv, some tb, some te, some tf, some sf =>
-      return { d with cfg := { isHost := isHost, interval := iv, tbegin := tb, tend := te, typeFilter := tf, stateFilter := sf },
-                      st := C03.init, sp := {}, caseNo := d.caseNo + 1, caseFailed := [], caseNontrivial := false }
-    | _, _, _, _, _, _ => IO.println s!"BADLINE line={n}"; return d
+  | "C" :: k :: rest =>
+    match (if k == "h" then some true else if k == "s" then some false else none) with
+    | some isHost =>
+      match parseCfg isHost rest with
+      | some cfg =>
+        return { d with objs := #[{ cfg := cfg }], isHost := isHost, caseNo := d.caseNo + 1, caseFailed := [], caseNontrivial := false }
+      | none => IO.println s!"BADLINE line={n}"; return d
+    | none => IO.println s!"BADLINE line={n}"; return d
+  | "O" :: rest =>
+    match parseCfg d.isHost rest with
+    | some cfg =>
+      return { d with objs := d.objs.push { cfg := cfg }, multi := if d.objs.size == 1 then d.multi + 1 else d.multi }
+    | none => IO.println s!"BADLINE line={n}"; return d
   | "N" :: rest =>
     let (pre, post) := splitBar rest
     match pre with
     | [tb, _dt] =>
       match (parseNat? tb) >>= NType.ofBit? with
-      | some ty => handleOp d n .send ty post
+      | some ty => handleOp { d with curKind := .send, curTy := ty } n 0 .send ty post
+      | none => IO.println s!"BADLINE line={n}"; return d
+    | _ => IO.println s!"BADLINE line={n}"; return d
+  | "q" :: rest =>     -- a request raised by the code itself inside an X / Z operation
+    let (pre, post) := splitBar rest
+    match pre with
+    | [tb] =>
+      match (parseNat? tb) >>= NType.ofBit? with
+      | some ty => handleOp { d with curKind := .send, curTy := ty, requests := d.requests + 1 } n 0 .send ty post
       | none => IO.println s!"BADLINE line={n}"; return d
     | _ => IO.println s!"BADLINE line={n}"; return d
   | "T" :: rest =>
     let (_, post) := splitBar rest
-    handleOp d n .tick .problem post
+    handleOp { d with curKind := .tick, curTy := .problem } n 0 .tick .problem post
+  | "+" :: rest =>     -- the same operation as seen by a further notification object
+    let (pre, post) := splitBar rest
+    match pre with
+    | [k] =>
+      match parseNat? k with
+      | some k => handleOp d n k d.curKind d.curTy post
+      | none => IO.println s!"BADLINE line={n}"; return d
+    | _ => IO.println s!"BADLINE line={n}"; return d
+  | "z" :: rest =>     -- notification_number as the implementation has it (reset outside the modelled code)
+    let (_, post) := splitBar rest
+    match post.mapM parseNat? with
+    | some nums =>
+      let objs := (List.range d.objs.size).foldl (fun (a : Array ObjSt) i =>
+        match a[i]?, nums[i]? with
+        | some ob, some v => a.set! i { ob with st := { ob.st with number := v } }
+        | _, _ => a) d.objs
+      return { d with objs := objs }
+    | none => IO.println s!"BADLINE line={n}"; return d
   | _ => return d   -- environment changes: visible to the model through the oracle inputs of the next operation
 
 def main : IO Unit := do
   let stdin ← IO.getStdin
   let d ← foldLines stdin handle ({} : DSt)
-  IO.println s!"STATS cases={d.caseNo} steps={d.steps} sends={d.sends} ticks={d.ticks} events={d.events} deliveries={d.deliveries} reminders={d.reminders} recoveries={d.recoveries} acks={d.acks} filtered_recoveries={d.filteredRecoveries} forced={d.forced} stashed={d.stashed} released={d.released} nontrivial={d.nontrivial} mismatches={d.mismatches} specfails={d.specfails}"
+  IO.println s!"STATS cases={d.caseNo} steps={d.steps} sends={d.sends} ticks={d.ticks} events={d.events} deliveries={d.deliveries} reminders={d.reminders} recoveries={d.recoveries} acks={d.acks} filtered_recoveries={d.filteredRecoveries} forced={d.forced} stashed={d.stashed} released={d.released} cold_stashed={d.coldStashed} cold_replayed={d.coldReplayed} multi_object_cases={d.multi} code_requests={d.requests} nontrivial={d.nontrivial} mismatches={d.mismatches} specfails={d.specfails}"
